@@ -211,6 +211,10 @@ func (e *Engine) checkInverted(
 				} else {
 					result.Membership = checkgroup.IsMember
 				}
+			default:
+				// The negated check was cut off before it could answer, so
+				// neither can this one. Tell the enclosing negation.
+				checkgroup.MarkCutOff(ctx)
 			}
 			resultCh <- result
 		case <-ctx.Done():
